@@ -147,7 +147,7 @@ pub fn child(history: &str) -> i32 {
 struct World {
     client: Arc<anytls_rs::client::Client>,
     scheme: Arc<Mutex<String>>,
-    seen: Arc<Mutex<Vec<(Option<String>, bool)>>>,
+    seen: Arc<Mutex<Vec<(Option<String>, bool, usize)>>>,
 }
 
 impl World {
@@ -157,7 +157,7 @@ impl World {
         let l = tokio::net::TcpListener::bind("127.0.0.1:0").await.unwrap();
         let addr = l.local_addr().unwrap();
         let scheme_cell = Arc::new(Mutex::new(String::new()));
-        let seen: Arc<Mutex<Vec<(Option<String>, bool)>>> = Arc::new(Mutex::new(vec![]));
+        let seen: Arc<Mutex<Vec<(Option<String>, bool, usize)>>> = Arc::new(Mutex::new(vec![]));
         let sc = scheme_cell.clone();
         let sn = seen.clone();
         tokio::spawn(async move {
@@ -200,7 +200,7 @@ impl World {
                                     }
                                     let _ = s.write_all(&enc(SERVER_SETTINGS, 0, b"v=2")).await;
                                     let _ = s.flush().await;
-                                    sn.lock().unwrap().push((announced, push));
+                                    sn.lock().unwrap().push((announced, push, pad));
                                 }
                                 PSH => {
                                     let _ = s.write_all(&enc(SYNACK, f.id, b"")).await;
@@ -231,7 +231,7 @@ impl World {
         }
         let seen = self.seen.lock().unwrap().get(before).cloned();
         let srv_md5 = format!("{:x}", md5::compute(srv_scheme.as_bytes()));
-        json!({"request_ok": req_ok, "new_session": seen.is_some(), "announced_md5": seen.as_ref().and_then(|x| x.0.clone()), "pushed": seen.as_ref().map(|x| x.1), "server_md5": srv_md5})
+        json!({"request_ok": req_ok, "new_session": seen.is_some(), "announced_md5": seen.as_ref().and_then(|x| x.0.clone()), "pushed": seen.as_ref().map(|x| x.1), "preamble_padding": seen.as_ref().map(|x| x.2), "server_md5": srv_md5})
     }
 }
 
@@ -317,6 +317,60 @@ fn session_grid(rep: &mut Report, thorough: bool) {
         }
     }
     rep.sections.insert("session_grid".into(), json!({"cases": cases, "stops": stops, "packets_after_push": m, "packets_before_push": "0..=max(stop)+1"}));
+}
+
+/// Padding length that line 0 of the scheme with this md5 prescribes for the authentication preamble
+/// (all schemes of the alphabet have a fixed-size line 0).
+pub fn preamble_pad_of(md5_hex: &str) -> Option<usize> {
+    for text in [scheme(200), scheme(300), scheme(150), scheme_b_retyped(), DEFAULT.to_string()] {
+        if format!("{:x}", md5::compute(text.as_bytes())) == md5_hex {
+            let sch = parse_scheme(&text)?;
+            return sch.lines.get(&0).and_then(|l| l.iter().find_map(|e| if let Entry::Range(a, b) = e { if a == b { Some(*a as usize) } else { None } } else { None }));
+        }
+    }
+    None
+}
+
+/// (history, step, announced md5, preamble padding, padding prescribed by line 0 of the announced scheme) for every
+/// client request of the given histories, each history in a fresh child process. Used by C05 for its preamble clause
+/// at the level of the real Client.
+pub fn client_preambles(histories: &[&str]) -> Vec<Result<(String, u64, String, usize, usize), String>> {
+    let exe = crate::det::self_exe();
+    let mut out = vec![];
+    for h in histories {
+        let o = match std::process::Command::new(&exe).arg("__c19child").arg(h).output() {
+            Ok(o) => o,
+            Err(e) => {
+                out.push(Err(format!("history {h}: cannot spawn child: {e}")));
+                continue;
+            }
+        };
+        let text = String::from_utf8_lossy(&o.stdout).to_string();
+        let Some(line) = text.lines().find(|l| l.starts_with("C19CHILD ")) else {
+            out.push(Err(format!("history {h}: child exit {:?}", o.status.code())));
+            continue;
+        };
+        let Ok(steps) = serde_json::from_str::<serde_json::Value>(&line["C19CHILD ".len()..]) else {
+            out.push(Err(format!("history {h}: unparsable child output")));
+            continue;
+        };
+        for st in steps.as_array().cloned().unwrap_or_default() {
+            let op = st["op"].as_str().unwrap_or("");
+            if !matches!(op, "R" | "r" | "d" | "q") {
+                continue;
+            }
+            let res = &st["result"];
+            let (Some(md5), Some(pad)) = (res["announced_md5"].as_str(), res["preamble_padding"].as_u64()) else {
+                out.push(Err(format!("history {h} step {}: no new session observed: {res}", st["step"])));
+                continue;
+            };
+            match preamble_pad_of(md5) {
+                Some(want) => out.push(Ok((h.to_string(), st["step"].as_u64().unwrap_or(0), md5.to_string(), pad as usize, want))),
+                None => out.push(Err(format!("history {h} step {}: announced md5 {md5} is none of the schemes in play", st["step"]))),
+            }
+        }
+    }
+    out
 }
 
 fn expected_size(s: &Option<String>) -> Option<usize> {
@@ -451,6 +505,12 @@ pub fn run(tier: Tier) -> i32 {
                         continue;
                     }
                     let announced = res["announced_md5"].as_str().unwrap_or("").to_string();
+                    // the session announces a scheme and uses it from its very first bytes: the preamble's padding is line 0 of it
+                    if let (Some(want), Some(pad)) = (preamble_pad_of(&announced), res["preamble_padding"].as_u64())
+                        && pad as usize != want
+                    {
+                        rep.violation("C19:new-session-announces-one-scheme-and-uses-another", &format!("{ctx}: the session created now announces md5 {announced}, whose line 0 prescribes {want} bytes of preamble padding, but its preamble carries {pad}"), json!({"engine": "BX-child", "history": h}));
+                    }
                     if let Some(cur) = &current {
                         let want = format!("{:x}", md5::compute(cur.as_bytes()));
                         if announced != want {
